@@ -189,7 +189,12 @@ where
 
                     Token::Tag(tag!(<html>)) => self.step(InsertionMode::InBody, token),
 
-                    Token::Tag(tag @ tag!(<base> | <basefont> | <bgsound> | <link> | <meta>)) => {
+                    Token::Tag(tag @ tag!(<base> | <basefont> | <bgsound> | <link>)) => {
+                        self.insert_and_pop_element_for(tag);
+                        ProcessResult::DoneAckSelfClosing
+                    },
+
+                    Token::Tag(tag @ tag!(<meta>)) => {
                         self.insert_and_pop_element_for(tag.clone());
 
                         // Step 1. If the element has a charset attribute, and getting an encoding from its value
